@@ -14,7 +14,7 @@ import (
 	"verifharness/hlib"
 )
 
-func pow2(n uint) *big.Int { return new(big.Int).Lsh(big.NewInt(1), n) }
+func pow2(n uint) *big.Int     { return new(big.Int).Lsh(big.NewInt(1), n) }
 func sub1(x *big.Int) *big.Int { return new(big.Int).Sub(x, big.NewInt(1)) }
 
 func genAmount(r *hlib.Rand) *big.Int {
@@ -319,6 +319,14 @@ type Node struct {
 	P     int   `json:"p,omitempty"`
 	Flags int   `json:"flags,omitempty"`
 	Inner *Node `json:"inner,omitempty"`
+	// batch: contract P (index into the batch contracts) performs the calls of Items in order, from one frame
+	Items []BatchItem `json:"items,omitempty"`
+}
+
+// BatchItem: one call of a batch (flags: bits 0-1 call kind, bit 2 ignore a failing call).
+type BatchItem struct {
+	Flags int   `json:"flags,omitempty"`
+	Inner *Node `json:"inner"`
 }
 
 type Step struct {
@@ -340,6 +348,7 @@ type Spec struct {
 }
 
 type genState struct {
+	eoas   []common.Address
 	valStr []string
 	deleg  map[string]*big.Int // approximate: caller key + "/" + validator index -> delegated so far
 }
@@ -444,6 +453,8 @@ func (g *genState) genSys(r *hlib.Rand, callerKey string) *Node {
 	x := r.Intn(20)
 	if len(g.deleg) < 2 && r.Chance(2, 3) {
 		x = 0
+	} else if g.heldVal(r, callerKey) != "" && r.Chance(1, 2) {
+		x = 6 + r.Intn(8) // the caller holds a delegation: undelegate / redelegate / withdraw more often
 	}
 	switch {
 	case x < 6:
@@ -568,8 +579,53 @@ func eventOf(n *Node, sender common.Address) (string, []byte) {
 	return name, bz
 }
 
+// failingDelegate: a Staking.delegate call whose native action must fail (more coins than any account owns).
+func (g *genState) failingDelegate() *Node {
+	return &Node{K: "sys", C: "staking", Fn: "delegate", V: hlib.Hex([]byte(g.valStr[0])),
+		A: new(big.Int).Add(new(big.Int).Mul(eoaFunds, big.NewInt(1000)), big.NewInt(1)).String()}
+}
+
+// genBatch: one contract performing several calls in one transaction (the receipt then holds several events of
+// the system contracts: failing and succeeding native actions mixed, staking and governance mixed, look-alikes in between).
+func (g *genState) genBatch(r *hlib.Rand, p, q int) *Node {
+	b := r.Intn(nBatches)
+	bk, pk := fmt.Sprintf("b%d", b), fmt.Sprintf("p%d", p)
+	item := func(n *Node) BatchItem { return BatchItem{Inner: n} }
+	n := &Node{K: "batch", P: b}
+	switch z := r.Intn(12); {
+	case z < 4:
+		for i, k := 0, 2+r.Intn(2); i < k; i++ {
+			n.Items = append(n.Items, item(g.genSys(r, bk)))
+		}
+	case z == 4: // an earlier native action fails, the last one is fine
+		n.Items = []BatchItem{item(g.failingDelegate()), item(g.genSys(r, bk))}
+	case z == 5: // the failing action in the middle
+		n.Items = []BatchItem{item(g.genSys(r, bk)), item(g.failingDelegate()), item(g.genSys(r, bk))}
+	case z == 6: // ignoring the failure of an EVM-level failing call does not hide a native failure
+		n.Items = []BatchItem{{Flags: fIgnoreFail, Inner: g.genSys(r, bk)}, {Flags: fIgnoreFail, Inner: g.genSys(r, bk)}}
+	case z == 7: // a vote and a staking action in one transaction (the staking hook runs first)
+		vote := &Node{K: "sys", C: "gov", Fn: "vote", Pid: "1", Opt: big.NewInt(int64(1 + r.Intn(4))).String()}
+		n.Items = []BatchItem{item(vote), item(g.genSys(r, bk))}
+		if r.Chance(1, 2) {
+			n.Items[0], n.Items[1] = n.Items[1], n.Items[0]
+		}
+	case z == 8: // look-alike in between
+		n.Items = []BatchItem{item(lookalike(g.genSys(r, "none"), g.victim(r))), item(g.genSys(r, bk))}
+	case z == 9: // called through a proxy
+		n.Items = []BatchItem{item(g.genSys(r, bk)), item(g.genSys(r, bk))}
+		return &Node{K: "proxy", P: p, Flags: 0, Inner: n}
+	case z == 10: // a proxy call and a direct call
+		n.Items = []BatchItem{item(&Node{K: "proxy", P: p, Flags: 0, Inner: g.genSys(r, pk)}), item(g.genSys(r, bk))}
+	default: // other call kinds from the batch: the Staking byte code at the batch's own address acts for nobody
+		n.Items = []BatchItem{{Flags: 1 + r.Intn(3), Inner: g.genSys(r, "none")}, item(g.genSys(r, bk))}
+	}
+	return n
+}
+
+func (g *genState) victim(r *hlib.Rand) common.Address { return g.eoas[r.Intn(len(g.eoas))] }
+
 func genSpec(r *hlib.Rand, id int, maxSteps int, valStr []string, eoas []common.Address) Spec {
-	g := &genState{valStr: valStr, deleg: map[string]*big.Int{}}
+	g := &genState{valStr: valStr, deleg: map[string]*big.Int{}, eoas: eoas}
 	s := Spec{ID: id}
 	n := 3 + r.Intn(maxSteps)
 	for i := 0; i < n; i++ {
@@ -593,7 +649,9 @@ func genSpec(r *hlib.Rand, id int, maxSteps int, valStr []string, eoas []common.
 			q := (p + 1 + r.Intn(nProxies-1)) % nProxies
 			pk, qk, ek := fmt.Sprintf("p%d", p), fmt.Sprintf("p%d", q), fmt.Sprintf("e%d", st.From)
 			st.T = "tx"
-			switch y := r.Intn(100); {
+			switch y := r.Intn(122); {
+			case y >= 100:
+				st.Call = g.genBatch(r, p, q)
 			case y < 34:
 				st.Call = g.genSys(r, ek)
 			case y < 49:
